@@ -85,6 +85,7 @@ func (c *Ctx) ruleExcerpt() {
 		c.fail("EXCERPT", "reporting.Reporter.formatPrettyError", "", "function not found")
 		return
 	}
+	c.ruleExcerptSamePosition()
 	// ---- the window: appends to sourceLines.content / .lineNumbers
 	type site struct {
 		b        *ssa.BasicBlock
@@ -692,4 +693,46 @@ func sameStructCell(a, b ssa.Value) bool {
 		return false
 	}
 	return copied(a, b) || copied(b, a)
+}
+
+// ruleExcerptSamePosition (eleventh round): the file the excerpt is read from and the line that is looked up in it
+// are the Filename and the Line of one and the same token.Position - the one the message is about. A //line
+// directive gives a position another file name *and* another line: the physical file with the adjusted line (or the
+// other way round) shows a line that has nothing to do with the diagnostic, and shows one where none should be.
+func (c *Ctx) ruleExcerptSamePosition() {
+	P := c.P
+	n := 0
+	for _, fn := range P.ModFuncs {
+		if funcPkgPath(fn) != modulePath+"/src/reporting" {
+			continue
+		}
+		allInstrs(fn, func(b *ssa.BasicBlock, ins ssa.Instruction) {
+			call, ok := ins.(*ssa.Call)
+			if !ok || call.Call.StaticCallee() == nil || !P.IsProductFunc(call.Call.StaticCallee()) {
+				return
+			}
+			lineD := ""
+			for _, a := range call.Call.Args {
+				if d := P.Desc(a); isIntType(a.Type()) && strings.HasSuffix(d, "go/token.Position.Line)") {
+					lineD = d
+				}
+			}
+			if lineD == "" {
+				return
+			}
+			wantFile := strings.TrimSuffix(lineD, "go/token.Position.Line)") + "go/token.Position.Filename)"
+			for _, a := range call.Call.Args {
+				bt, isB := a.Type().Underlying().(*types.Basic)
+				if !isB || bt.Info()&types.IsString == 0 {
+					continue
+				}
+				n++
+				d := P.Desc(a)
+				c.check(d == wantFile, "EXCERPT/SOURCE/SAME-POSITION", FuncName(fn)+"->"+FuncName(call.Call.StaticCallee()), P.Pos(call.Pos()),
+					"the file read and the line looked up in it are Filename and Line of the same position",
+					"the excerpt is read from a file that is not the Filename of the position whose Line is looked up ("+short(d)+"): for a //line-remapped position the message shows an unrelated line of another file")
+			}
+		})
+	}
+	c.floor("calls that take a file name with the line of a position", n, 1)
 }
